@@ -126,6 +126,13 @@ func paramCells(loc string) []pcell {
 	for _, rq := range reqs {
 		add(pcell{Shape: "obj", Required: rq, Kind: "json"})
 	}
+	// pass-through parameters (described by content with a non-JSON media type: the text is handed over as it is);
+	// not in the path (probe P7 of C01: the wrappers do not compile there)
+	if loc != "path" {
+		for _, rq := range reqs {
+			add(pcell{Shape: "string", Required: rq, Kind: "pass"})
+		}
+	}
 	// declared names that differ from their Go variable / field names: the wire carries the DECLARED name
 	switch loc {
 	case "path":
@@ -213,7 +220,13 @@ func paramSpec(cells []pcell) []byte {
 		if c.Loc == "path" {
 			path += "/{" + c.Name + "}"
 		}
-		item := map[string]any{"get": map[string]any{"operationId": c.Op, "parameters": []any{p}, "responses": map[string]any{"204": map[string]any{"description": "ok"}}}}
+		plist := []any{p}
+		if c.Kind == "pass" {
+			// an operation whose parameters are ALL pass-through leaves the wrapper's err unused in six flavours (does not
+			// compile: probes P7 of C01); an optional styled companion that is never sent keeps the cell exercisable
+			plist = append(plist, map[string]any{"name": "aux", "in": "query", "schema": map[string]any{"type": "integer"}})
+		}
+		item := map[string]any{"get": map[string]any{"operationId": c.Op, "parameters": plist, "responses": map[string]any{"204": map[string]any{"description": "ok"}}}}
 		if c.Override {
 			lax := map[string]any{"name": c.Name, "in": c.Loc, "schema": map[string]any{"type": "string"}}
 			if c.Loc == "path" {
